@@ -24,7 +24,7 @@ inductive Frag (K : Type)
   | sym (e : SExpr K)
   /-- register transform printed by SymPy (no braces) -/
   | rrt (e : SExpr K)
-  deriving Repr, Inhabited
+  deriving Repr, Inhabited, DecidableEq
 
 abbrev Line (K : Type) := List (Frag K)
 
